@@ -142,6 +142,18 @@ def gen_for(stream, seed):
         sc = scen.gen_scenario(seed, "shocked", nev=rng.choice([1, 2, 3]), T=rng.choice([16, 24]), max_occ=3)
         sc["stream"] = "early"
         return sc
+    if stream == "negfd":
+        # a balanced table with some negative final-demand entries ("changes in inventories")
+        sc = scen.gen_scenario(seed, "shocked", nev=rng.choice([1, 2]), T=rng.choice([16, 24]), max_occ=3, kind="dense")
+        tb = sc["table"]
+        N, F = tb["m"] * tb["n"], tb["m"] * tb["k"]
+        for _ in range(rng.randint(1, 3)):
+            i, c_ = rng.randrange(N), rng.randrange(F)
+            if F >= 2 or True:
+                tb["Y"][i][c_] = -0.03 * abs(tb["Y"][i][c_])
+        tb["kind"] = "neg_fd"
+        sc["stream"] = "negfd"
+        return sc
     if stream == "units":
         sc = scen.gen_scenario(seed, "shocked", types=["rebuild", "recovery"], nev=rng.choice([1, 2]), T=rng.choice([12, 20]))
         mf = sc["model"]["monetary_factor"]
@@ -291,6 +303,16 @@ def one_scenario(pid, sc, res, dr, stats, C, dist, seen_nontrivial, phases, add_
             for oname in props.RUN_ORACLES.get(pid, []):
                 for v in RUN_FUNCS[oname](tr, c):
                     add_violation(v, sc)
+            if pid == "C07":
+                # the capital stock does not depend on the order in which the table / the ratio dict are given
+                tbp = sc["table"]
+                Np = tbp["m"] * tbp["n"]
+                rr = random.Random(sc["seed"])
+                perm = {"rows": rr.sample(range(Np), Np), "cols": rr.sample(range(Np), Np), "ycols": None}
+                mp = scen.build_model(tbp, sc["model"], io=scen.build_table(tbp, perm=perm), dict_order=sc["seed"] + 1,
+                                      capital_perm=rr.sample(range(Np), Np))
+                if not np.allclose(np.asarray(mp.productive_capital, dtype=float).ravel(), c["K"], rtol=1e-12, atol=0):
+                    add_violation({"property": "C07", "t": 0, "what": "capital stock differs when the table and the ratio dictionary are given in another label order"}, sc)
             # paired runs
             pnames = props.PAIRED.get(pid, [])
             if pnames:
